@@ -4,6 +4,7 @@
 package sim
 
 import (
+	"encoding/binary"
 	"fmt"
 	"net"
 	"sort"
@@ -88,10 +89,15 @@ func NewRunner(a *rig.Agent, b *rig.Bessd, p4 *rig.P4d, n int, base int) (*Runne
 			r.Close()
 			return nil, err
 		}
-		r.Peers = append(r.Peers, &PeerState{P: p, NodeID: ip, IP: ip, PFDs: map[string][]string{}})
+		nid := PeerNodeID(i)
+		r.Peers = append(r.Peers, &PeerState{P: p, NodeID: nid, IP: nid, PFDs: map[string][]string{}})
 	}
 	return r, nil
 }
+
+// PeerNodeID is the fixed Node ID (and CP F-SEID address) of peer i, independent of the
+// source address the peer socket happens to use, so that cases are static values.
+func PeerNodeID(i int) string { return fmt.Sprintf("172.31.0.%d", i+1) }
 
 // Close releases the peer sockets (the agent's connection objects stay until timeout).
 func (r *Runner) Close() {
@@ -340,6 +346,11 @@ func (r *Runner) Exec(op model.Op) *Obs {
 		}
 	case "raw":
 		b := hexDecode(op.Raw)
+		if op.PatchSEID && len(b) >= 12 && b[0]&1 != 0 {
+			if s := r.Sess[op.Sess]; s != nil {
+				binary.BigEndian.PutUint64(b[4:12], s.UPSEID)
+			}
+		}
 		o.Sent = b
 		o.CmdFrom = r.logLen()
 		pr := p.P.Exchange(b, 2*time.Second)
